@@ -599,20 +599,44 @@ _PRESETS0 = None
 
 
 def _presets0():
-    # the documented preset tables (README / docstring of get_preset_constraints), transcribed independently
-    d = {"H": 1, "F": 1, "Cl": 1, "Br": 1, "I": 1, "B": 3, "B+1": 2, "B-1": 4, "O": 2, "O+1": 3, "O-1": 1,
-         "N": 3, "N+1": 4, "N-1": 2, "C": 4, "C+1": 3, "C-1": 3, "P": 5, "P+1": 4, "P-1": 6,
-         "S": 6, "S+1": 5, "S-1": 5, "?": 8}
-    o = dict(d); o.update({"S": 2, "S+1": 3, "S-1": 1, "P": 3, "P+1": 4, "P-1": 2})
-    h = dict(d); h.update({"Cl": 7, "Br": 7, "I": 7, "N": 5})
-    return {"default": d, "octet_rule": o, "hypervalent": h}
+    from .docs import presets_doc
+    return presets_doc()
 
 
 def c12_history(case):
+    """the history runs on a freshly imported copy of the package: a history starts in a fresh process, where nothing
+    (lazily built presets, caches) has been touched yet"""
+    import importlib
+    import sys
     from . import hist
-    reset_table()
-    sf.get_semantic_robust_alphabet.cache_clear() if hasattr(sf.get_semantic_robust_alphabet, "cache_clear") else None
-    api = _api()
+    saved = {k: v for k, v in sys.modules.items() if k == "selfies" or k.startswith("selfies.")}
+    for k in saved:
+        del sys.modules[k]
+    try:
+        fresh = importlib.import_module("selfies")
+        return _c12_history(case, fresh, hist)
+    finally:
+        for k in [k for k in sys.modules if k == "selfies" or k.startswith("selfies.")]:
+            del sys.modules[k]
+        sys.modules.update(saved)
+
+
+def _c12_history(case, sf, hist):
+    api = hist.Api(sf.set_semantic_constraints, sf.get_semantic_constraints, sf.get_preset_constraints,
+                   sf.get_semantic_robust_alphabet, sf.decoder, sf.encoder, sf.DecoderError, sf.EncoderError)
+
+    def _dec(x):
+        try:
+            with warnings.catch_warnings():
+                warnings.simplefilter("ignore")
+                return ("ok", sf.decoder(x))
+        except sf.DecoderError:
+            return ("DecoderError",)
+        except Exception as ex:  # noqa
+            return ("exc", type(ex).__name__)
+
+    def reset_table():
+        pass
     st = hist.State(_presets0())
     probe = "[C][#C]"
     try:
@@ -727,7 +751,10 @@ def c14_utils(case):
     for w in wants:
         want |= set(w)
     want.discard(".")
-    got = sf.get_alphabet_from_selfies(strs)
+    try:
+        got = sf.get_alphabet_from_selfies(iter(strs) if case.get("one_shot_iterator") else strs)
+    except Exception as ex:  # noqa
+        return bad("C14:alphabet-raises", "get_alphabet_from_selfies(%r) raised %r" % (strs, ex))
     if got != want:
         return bad("C14:alphabet", "get_alphabet_from_selfies(%r) = %r, expected %r" % (strs, sorted(got), sorted(want)))
     return ok()
@@ -845,10 +872,20 @@ def c06_strict(case):
         if r1[0] == "ok" and r1[1] != r0[1]:
             return bad("C06:strict-changes-output", "encoder(%r): strict=True gives %r, strict=False gives %r" % (smi, r1[1], r0[1]))
         mol = oread.read_smiles(smi)
-        if mol.faults or any(a.aromatic for a in mol.atoms) or any(b.order == 1.5 for b in mol.bonds.values()):
-            return ok("aromatic / unreadable: iff not judged")
-        over = [(i, a.text, oread.explicit_valence(mol, i), oread.capacity(tab, a)) for i, a in enumerate(mol.atoms)
-                if oread.explicit_valence(mol, i) > oread.capacity(tab, a)]
+        if mol.faults:
+            return ok("unreadable: iff not judged")
+        if any(a.aromatic for a in mol.atoms) or any(b.order == 1.5 for b in mol.bonds.values()):
+            need = [judge.pi_need(mol, i) if a.aromatic else 0 for i, a in enumerate(mol.atoms)]
+            if any(n is None for n in need):
+                return ok("aromatic atom outside the standard kinds: iff not judged")
+            vals = []
+            for i, a in enumerate(mol.atoms):
+                sig = sum((1 if b.order == 1.5 else b.order) for (x, y), b in mol.bonds.items() if i in (x, y))
+                vals.append(int(sig + (a.hcount or 0) + need[i]))
+        else:
+            vals = [oread.explicit_valence(mol, i) for i in range(len(mol.atoms))]
+        over = [(i, a.text, vals[i], oread.capacity(tab, a)) for i, a in enumerate(mol.atoms)
+                if vals[i] > oread.capacity(tab, a)]
         if over and r1[0] == "ok":
             return bad("C06:strict-accepts-violation", "encoder(%r, strict=True) under %s succeeds although atom %s has %s bonds+H > capacity %s"
                        % (smi, _short(case["table"]), over[0][1], over[0][2], over[0][3]))
@@ -891,6 +928,9 @@ def c03_roundtrip(case):
         if m_out.faults:
             return bad("C03:output-unreadable", "decoder(encoder(%r)) = %r: %s" % (s, d[1], m_out.faults[:2]))
         r = compare_mols(m_in, m_out)
+        if r is None:
+            # "aromatic input bonds become a consistent single/double assignment": a Kekule structure of the input
+            r = judge.kekule_problem(m_in, m_out)
         if r is not None:
             return bad("C03:" + r[0], "%r -> %r -> %r under %s: %s" % (s, e[1], d[1], _short(case.get("table")), r[1]))
         return ok()
